@@ -243,7 +243,8 @@ def illtyped(ctx):
                 _from_md(v)
             except Exception as e:  # noqa
                 E.reachable("rejected")
-                E.require(key in str(e), "ill-typed value rejected without naming the option")
+                msg = e.args[0] if e.args else ""
+                E.require(choice.apply(lambda t: key in str(t), msg), "ill-typed value rejected without naming the option")
                 return
             E.reachable("accepted")
             E.require(False, "ill-typed value accepted")
